@@ -42,6 +42,10 @@ class C12(Prop):
                 enc.append(("tuple", list(seq)))
         enc.append(("list", [0, 1, 2, 3, 4, 5, 6, 0]))
         enc.append(("frozenset", [1, 3]))
+        # sequences that are neither list nor tuple (a deque, a UserList), with and without duplicates
+        for form in ("deque", "userlist"):
+            for seq in ([0], [6], [1, 3], [6, 0], [0, 1, 2, 3, 4, 5, 6], [0, 0], [6, 6], [1, 3, 1], [2, 5, 5], [0, 1, 2, 3, 4, 5, 6, 3]):
+                enc.append((form, list(seq)))
         second = list(enc)
         ctx.rng.shuffle(second)
         enc += second        # the same inputs again in another order (what was encoded before must not matter)
@@ -57,11 +61,13 @@ class C12(Prop):
         if scn["kind"] == "enc":
             for form, days in scn["items"]:
                 members = [D[d] for d in days]
+                import collections
                 arg = {"single": lambda: members[0], "set": lambda: set(members), "list": lambda: list(members),
-                       "tuple": lambda: tuple(members), "frozenset": lambda: frozenset(members)}[form]()
+                       "tuple": lambda: tuple(members), "frozenset": lambda: frozenset(members),
+                       "deque": lambda: collections.deque(members), "userlist": lambda: collections.UserList(members)}[form]()
                 e = {"ev": "Mask", "form": form, "days": days, "raised": False, "out": []}
                 try:
-                    before = list(arg) if form in ("list", "tuple") else None
+                    before = list(arg) if form in ("list", "tuple", "deque", "userlist") else None
                     e["out"] = text(weekdays_to_hexadecimal(arg))
                     if before is not None and list(arg) != before:
                         e["out"] = text("input-mutated")
